@@ -304,7 +304,7 @@ type CobraOut struct {
 // ErrWatchdog marks a wall-clock watchdog expiry (inconclusive, never a violation).
 var ErrWatchdog = fmt.Errorf("watchdog: run did not finish in time")
 
-const watchdog = 180 * time.Second
+const watchdog = 120 * time.Second
 
 // Run executes all scripts of the case once (dry or normal) and observes them.
 func Run(w *World, c Case, dry bool, cobra CobraFn) (*Obs, error) {
@@ -392,8 +392,12 @@ func runDirect(w *World, c Case, dry bool) []ScriptObs {
 				}
 			}()
 			ctx := context.Background()
-			if s.Timeout != "" {
-				if d, err := time.ParseDuration(s.Timeout); err == nil && d > 0 {
+			to := s.Timeout
+			if to == "" {
+				to = c.DefTimeout // what scriptSetDefaults does
+			}
+			if to != "" {
+				if d, err := time.ParseDuration(to); err == nil && d > 0 {
 					var cancel context.CancelFunc
 					ctx, cancel = context.WithTimeout(ctx, d)
 					defer cancel()
